@@ -193,12 +193,11 @@ impl<'a, D: DependencyProvider> Encoder<'a, D> {
         }
 
         // Add clauses for externally excluded candidates.
+        // If an excluded candidate has already been selected (e.g. it was requested
+        // directly as a soft requirement before its package was looked at),
+        // `add_exclusion_clause` records the clause as conflicting.
         for &(solvable, reason) in &package_candidates.excluded {
-            let variable = self.add_exclusion_clause(solvable.into(), reason);
-            debug_assert!(
-                self.state.decision_tracker.assigned_value(variable) != Some(true),
-                "it cannot be possible that the excluded candidate is already uninstallable"
-            )
+            self.add_exclusion_clause(solvable.into(), reason);
         }
     }
 
